@@ -1,0 +1,66 @@
+//go:build verif
+
+package zap
+
+import (
+	"sync"
+	"sync/atomic"
+
+	"github.com/RoaringBitmap/roaring/v2"
+	index "github.com/blevesearch/bleve_index_api"
+	segment "github.com/blevesearch/scorch_segment_api/v2"
+)
+
+// Verification hooks (build tag "verif"). Add-only: nothing here is compiled
+// into normal builds and no existing code is changed.
+
+var verifInterimNews int64
+
+func init() {
+	VerifResetPools()
+}
+
+// VerifNewWithChunkMode builds an in-memory segment with an explicit chunk mode.
+func VerifNewWithChunkMode(results []index.Document, chunkMode uint32) (
+	segment.Segment, uint64, error) {
+	return (&ZapPlugin{}).newWithChunkMode(results, chunkMode)
+}
+
+// VerifMergeWithChunkMode merges segments with an explicit chunk mode.
+func VerifMergeWithChunkMode(segments []segment.Segment, drops []*roaring.Bitmap,
+	path string, chunkMode uint32, closeCh chan struct{}, s segment.StatsReporter) (
+	[][]uint64, uint64, error) {
+	segmentBases := make([]*SegmentBase, len(segments))
+	for i, seg := range segments {
+		switch sx := seg.(type) {
+		case *Segment:
+			segmentBases[i] = &sx.SegmentBase
+		case *SegmentBase:
+			segmentBases[i] = sx
+		default:
+			panic("verif: unexpected segment type")
+		}
+	}
+	return mergeSegmentBases(segmentBases, drops, path, chunkMode, closeCh, s)
+}
+
+// VerifInterimPoolNews reports how many times the builder pool had to
+// allocate a fresh interim since the last VerifResetPools.
+func VerifInterimPoolNews() int64 {
+	return atomic.LoadInt64(&verifInterimNews)
+}
+
+// VerifResetPools re-initialises the builder pool and the stored-field
+// visit-context pool so that a history starts from a known pool state.
+func VerifResetPools() {
+	atomic.StoreInt64(&verifInterimNews, 0)
+	interimPool = sync.Pool{New: func() interface{} {
+		atomic.AddInt64(&verifInterimNews, 1)
+		return &interim{}
+	}}
+	visitDocumentCtxPool = sync.Pool{
+		New: func() interface{} {
+			return &visitDocumentCtx{}
+		},
+	}
+}
